@@ -79,15 +79,27 @@ Theorem C12_in_order_once : forall c evs st,
 Proof. intros. split. apply sse_outs_subseq. apply unrelated_traffic_in_order. Qed.
 Print Assumptions C12_in_order_once.
 
-(** _cleanup releases everything from ANY resource state, is idempotent, and
+(** _cleanup releases everything from ANY resource state and is idempotent;
     every closed life (normal exit, exception, cancellation, failed or
-    cancelled entering) has released everything. *)
+    cancelled entering) has released everything; leaving from ANY inside state
+    completes and releases everything, failing or cancelled entering likewise;
+    no life ever gets stuck. *)
 Theorem C12_cleanup_releases_all :
   (forall r, released (cleanup r) = true) /\
   (forall r, cleanup (cleanup r) = cleanup r) /\
   (forall c evs, c_enter_cancel c = true ->
-     lp (life c evs) = LClosed -> released (lr (life c evs)) = true).
-Proof. split; [|split]. exact cleanup_releases_all. exact cleanup_idempotent. exact life_closed_released. Qed.
+     lp (life c evs) = LClosed -> released (lr (life c evs)) = true) /\
+  (forall c evs k, c_reraise_cancel c = true -> lp (life c evs) = LInside ->
+     lp (lstep c (life c evs) (LExit k)) = LClosed /\ released (lr (lstep c (life c evs) (LExit k))) = true) /\
+  (forall c evs, c_enter_cancel c = true -> lp (life c evs) = LEntering ->
+     (lp (lstep c (life c evs) LEnterRaise) = LClosed /\ released (lr (lstep c (life c evs) LEnterRaise)) = true) /\
+     (lp (lstep c (life c evs) LEnterCancel) = LClosed /\ released (lr (lstep c (life c evs) LEnterCancel)) = true)) /\
+  (forall c evs, c_reraise_cancel c = true -> lp (life c evs) <> LStuck).
+Proof.
+  split; [|split; [|split; [|split; [|split]]]].
+  exact cleanup_releases_all. exact cleanup_idempotent. exact life_closed_released.
+  intros; apply exits_close; auto. intros; apply enter_failures_close; auto. exact never_stuck.
+Qed.
 Print Assumptions C12_cleanup_releases_all.
 
 (** Full-strength claims the code does not meet, patched or not (known findings). *)
@@ -108,11 +120,13 @@ Theorem C12_head_witnesses :
   (snd (run_parser cfg_head w_base pinit [w_nospace]) = []
    /\ snd (run_parser cfg_patched w_base pinit [w_nospace]) = [AEndpoint (w_base ++ s_messages ++ [120])]) /\
   (lp (life cfg_head [LAlloc; LStreamOpen; LEnterCancel]) = LClosed
-   /\ released (lr (life cfg_head [LAlloc; LStreamOpen; LEnterCancel])) = false).
+   /\ released (lr (life cfg_head [LAlloc; LStreamOpen; LEnterCancel])) = false) /\
+  (lp (life cfg_head [LAlloc; LStreamOpen; LEnterOk; LPendAdd; LWait; LSseEnds; LExit XNormal]) = LStuck
+   /\ r_out_task (lr (life cfg_head [LAlloc; LStreamOpen; LEnterOk; LPendAdd; LWait; LSseEnds; LExit XNormal])) = true).
 Proof.
-  split; [|split; [|split]].
+  split; [|split; [|split; [|split]]].
   exact head_int_id_no_terminal. exact head_other_status_no_terminal.
-  exact head_nospace_not_recognised. exact head_cancel_during_enter_leaks.
+  exact head_nospace_not_recognised. exact head_cancel_during_enter_leaks. exact head_exit_after_stream_end_hangs.
 Qed.
 Print Assumptions C12_head_witnesses.
 
@@ -124,5 +138,5 @@ Example C12_nonvacuous :
   /\ enter cfg_patched w_base 5000 (EstResp 10 200 [(100, w_nospace)] None) = Live (w_base ++ s_messages ++ [120]) 100
   /\ enter cfg_head w_base 5000 (EstResp 10 200 [(100, w_nospace)] None) = Raise 5000
   /\ enter cfg_patched w_base 5000 (EstResp 10 404 [] None) = Raise 10
-  /\ lp (life cfg_patched [LAlloc; LStreamOpen; LEnterOk; LPendAdd; LExit XCancel]) = LClosed.
+  /\ lp (life cfg_patched [LAlloc; LStreamOpen; LEnterOk; LPendAdd; LExit XCancelTask]) = LClosed.
 Proof. repeat split; reflexivity. Qed.
